@@ -85,6 +85,7 @@ class Suite:
     def add_canary(self, I, name, hyps):
         ob = Obligation("%s/%s" % (self.prop, name), list(hyps), z3.BoolVal(False), 'canary')
         g = Goal(ob, self.axioms_of(I), None, 'sat')
+        g.timeout_ms = 3000      # a canary only has to be "not refuted": a contradictory path condition is refuted in milliseconds
         self.goals.append(g)
         return g
 
@@ -135,7 +136,8 @@ class Suite:
         dump = os.environ.get('PYVC_DUMP')
         for g, r, j in zip(self.goals, results, jobs):
             g.result = r
-            if dump and g.expect == 'unsat' and r['verdict'] != 'unsat':
+            dm = os.environ.get('PYVC_DUMP_MATCH')
+            if dump and g.expect == 'unsat' and (r['verdict'] != 'unsat' or (dm and dm in g.ob.name)):
                 os.makedirs(dump, exist_ok=True)
                 import re
                 with open(os.path.join(dump, re.sub(r'[^A-Za-z0-9_.@-]+', '_', g.ob.name)[:120] + '.smt2'), 'w') as f:
